@@ -396,6 +396,8 @@ def run_threads_guided(nsenders, per, plan, script):
                     rec.lines.append({"e": "ret", "s": tid, "exc": False})
                 except Boom:
                     rec.lines.append({"e": "ret", "s": tid, "exc": True})
+                except Exception as e:  # noqa: BLE001 - an exception of the library is an observation
+                    rec.lines.append({"e": "ret", "s": tid, "exc": True, "other": type(e).__name__ + ":" + str(e)[:60]})
         except BaseException as e:  # noqa: BLE001
             errors.append(e)
         finally:
